@@ -107,7 +107,7 @@ def mutating(c):
     """a call that changes (or tries to change) the filesystem"""
     if c.kind in (None, "read", "other"):
         return False
-    if c.kind == "write" and c.paths and (c.paths[0].startswith("/dev/") or c.paths[0].startswith("pipe:") or c.paths[0].startswith("socket:") or c.paths[0].startswith("/proc/")):
+    if c.kind == "write" and c.paths and ((c.paths[0].startswith("/dev/") and not c.paths[0].startswith("/dev/shm/")) or c.paths[0].startswith("pipe:") or c.paths[0].startswith("socket:") or c.paths[0].startswith("/proc/")):
         return False
     return True
 
